@@ -103,6 +103,17 @@ def run_c10(tier):
     info = driver(rep, exe, ['walk', lib.seed() * 31 + 9, 8000 if tier == 'quick' else 60000, 3, w + '/x.ndjson'], 'walk default cap 3, write returns 0', env={'DRV_WRITE_ZERO': '1'})
     if info is not None:
         validate(rep, 'TVErrQueue', w + '/x.ndjson', 'walk-write0-cap3', nt_c10)
+    # the largest queues (the capacity is an int16_t): filled, the ring indices turned past 32767 - capacity, then overflow, pop, push ...;
+    # each recorded step is the step ScpiStatus prescribes (TVStatus; queue content and responses are judged here)
+    import p_status
+    exs = lib.build('drv_status', ['drv_status.c'])
+    for c in ((32767, 16385) if tier == 'quick' else (32767, 32766, 20000, 16385, 16384, 8191)):
+        d = lib.run_driver(exs, ['bigq', c, w + '/big.ndjson'], timeout=300)
+        if d['rc'] != 0:
+            rep.violation('driver-failure', dict(what='bigq cap %d' % c, rc=d['rc'], stderr=d['stderr'].decode(errors='replace')[-3000:]))
+            continue
+        rep.cov['driver_runs'].append(dict(build='default', mode='largest queues', **json.loads(d['stdout'].decode().strip().splitlines()[-1])))
+        p_status.validate(rep, 'C10', w + '/big.ndjson', 'bigq-cap%d' % c)
     composition.validate(rep, 'C10', tier)
     rep.cov['exhaustive'] = True
     shutil.rmtree(w, ignore_errors=True)
